@@ -104,7 +104,7 @@ def run(ck, fb):
                 ck.require(ok_lm, 'R13b', 'time_check:%s:revalidates-last-heartbeat' % callee.split('::')[-1], s.where(),
                            '%s is reached although a heartbeat newer than %s arrived: a heart-beating instance is expired' % (callee.split('::')[-1], cutoff))
             to = [x for x in t.calls(r'TimeoutSet::<T>::timeout$') if util.recv_fields(t, x)[-1:] == [setf]]
-            ck.require(len(to) == 1, 'R13b', 'time_check:drains:%s' % setf, t.where(), '%s is not drained' % setf)
+            ck.require(len(to) >= 1, 'R13b', 'time_check:drains:%s' % setf, t.where(), '%s is not drained' % setf)
             for x in to:
                 cut = [l for l in range(1, t.argc + 1) if t.local_name(l) == cutoff]
                 tb = Taint(t, local_src=cut)
@@ -190,7 +190,7 @@ def run(ck, fb):
     tc = ck.body(NA + 'time_check', 'R13d')
     if tc:
         cs = tc.calls(re.escape(SV + 'time_check') + '$')
-        ck.require(len(cs) == 1, 'R13d', 'time_check:calls-service', tc.where(), 'Service::time_check not called')
+        ck.require(len(cs) >= 1, 'R13d', 'time_check:calls-service', tc.where(), 'Service::time_check not called')
         for s in cs:
             t1 = Taint(tc, place_src=field_place_src('instance_health_timeout_millis'))
             t2 = Taint(tc, place_src=field_place_src('instance_timeout_millis'))
